@@ -174,7 +174,11 @@ def run(facts, tr, rep):
     rep.floor("C14.cap-origin-args", ncapo, 3)
     # ------------------------------------------------------------ CAP
     ncap = 0
+    tr_keep = tr
     for b in seen.values():
+        # judged on the function's inlined body: `max.map_or(interval, |m| interval.min(m))` is the match it stands for
+        b = facts.inl.bodies.get(b.def_) or b
+        tr = tr_keep.inl
         g = graph(b)
         for i in range(g.n):
             sw = g.switch(i)
@@ -210,6 +214,7 @@ def run(facts, tr, rep):
             rep.ob("C14.CAP", skey(b, "cap#%d" % (ncap - 1)), ok, g.where(i),
                    "with max_interval = Some(m) the delay passes through min(_, m)" if ok else
                    "with max_interval = Some(m) a delay can be returned without min(_, m)")
+    tr = tr_keep
     rep.floor("C14.cap-sites", ncap, 1)
     # ------------------------------------------------------------ FACTOR clamp at construction
     nf = 0
